@@ -971,6 +971,8 @@ func vFmtDay(day int, layout string) string {
 		return fmt.Sprintf("%04d-%02d-%02dT00:00:00Z", y, m, d)
 	case "Jan 2 2006 3:04PM":
 		return fmt.Sprintf("%s %d %04d 12:00AM", vMonthAbbr[m-1], d, y)
+	case "2006/01/02 15:04 MST": // with a zone abbreviation; records with other abbreviations are rendered by their generator
+		return fmt.Sprintf("%04d/%02d/%02d 00:00 UTC", y, m, d)
 	case "2006-01-02 15:04": // midnight; records with a time of day are rendered by their generator
 		return fmt.Sprintf("%04d-%02d-%02d 00:00", y, m, d)
 	}
